@@ -383,7 +383,7 @@ func TestC10(t *testing.T) {
 		}
 		return
 	}
-	s.SetRule("rapid on real repositories: commit graphs of 1-4 commits (roots, linear, merges identical to a parent or different from all) over trees whose path components are drawn from an alphabet with space, tab, double quote, backslash, control bytes (0x01-0x1f except LF), DEL, multi-byte UTF-8, glob metacharacters and shell metacharacters, 1-3 levels deep, with names that are prefixes of one another; trees and commits are written with the harness's own mktree -z / hash-object plumbing. Oracle (1): GetAllFilesInTree / GetEntriesInTree return exactly the names and blobs written; GetFilePathsChangedByCommit equals the tree diff computed from the generator's own maps (root: all paths; one parent: added+modified+deleted; merge: per the documented rule). Oracle (2): a push whose commit changes a path protected by a file rule (literal odd name, prefix glob over a directory holding odd names, catch-all; protection decided with the same fnmatch on the true path) verifies iff the commit is signed by the authorised key. Non-trivial: a path containing a blank, a character git would C-quote, or a non-ASCII character")
+	s.SetRule("rapid on real repositories: commit graphs of 1-4 commits (roots, linear, merges identical to a parent or different from all) over trees whose path components are drawn from an alphabet with space, tab, double quote, backslash, control bytes (0x01-0x1f except LF), DEL, multi-byte UTF-8, glob metacharacters and shell metacharacters, 1-3 levels deep, with names that are prefixes of one another; trees and commits are written with the harness's own mktree -z / hash-object plumbing. Oracle (1): GetAllFilesInTree / GetEntriesInTree return exactly the names and blobs written; GetFilePathsChangedByCommit equals the tree diff computed from the generator's own maps (root: all paths; one parent: added+modified+deleted; merge: per the documented rule). Oracle (2): a push whose commit changes a path protected by a file rule (literal odd name, prefix glob over a directory holding odd names, catch-all; protection decided with the same fnmatch on the true path) verifies iff the commit is signed by the authorised key. Verdict campaign: a push of 1-3 commits, each signed by its own key (authorised for the odd path / owner of a second rule / unknown / none) and changing any subset of {the odd path, a plain path sorting before everything, a plain path owned by a second principal}, under one or two file rules and optionally a global rule that does not concern the branch; expected: verifies iff every changed path of every new commit is unprotected or its commit is signed by a principal of a rule matching that path. Non-trivial: a path containing a blank, a character git would C-quote, or a non-ASCII character")
 	kit.Campaign(s, t, "paths", "paths", s.Budget(192, 12_000), genC10, run)
 	kit.Campaign(s, t, "verdict", "verdict", s.Budget(48, 1_600), genC10Verdict, verdict)
 }
